@@ -189,9 +189,9 @@ Definition is_option (head : tokens) : bool :=
   | [] => false
   end.
 
-Definition i_odec (head : tokens) (ds : list (dec ival)) : dec ival :=
+Definition i_odec (c : bool) (head : tokens) (ds : list (dec ival)) : dec ival :=
   fun b =>
-    if is_option head then
+    if negb c && is_option head then
       match ds, b with
       | [d], 0 :: r => Some (VEnum 0 [], r)
       | [d], 1 :: r => match d r with Some (v, r') => Some (VEnum 1 [v], r') | None => None end
@@ -199,9 +199,9 @@ Definition i_odec (head : tokens) (ds : list (dec ival)) : dec ival :=
       end
     else None.
 
-Definition i_oenc (head : tokens) (es : list (enc ival)) : enc ival :=
+Definition i_oenc (c : bool) (head : tokens) (es : list (enc ival)) : enc ival :=
   fun v =>
-    if is_option head then
+    if negb c && is_option head then
       match es, v with
       | [e], VEnum 0 [] => Some [0]
       | [e], VEnum 1 [x] => match e x with Some bs => Some (1 :: bs) | None => None end
